@@ -3,6 +3,7 @@ import Hannibal.Monitor.C02
 import Hannibal.Monitor.C02C
 import Hannibal.Monitor.C03
 import Hannibal.Monitor.C04
+import Hannibal.Monitor.C04P
 import Hannibal.Monitor.C05
 import Hannibal.Monitor.C05D
 import Hannibal.Monitor.C06
@@ -44,12 +45,14 @@ def runMonitor (pid : String) (c : MonCtx) (ls : List Label) : Option (Option Na
   | "C02" => some (firstSome ([ff (monC02 c) ls, ff (monC02t c) ls,
       -- "awaits complete with the termination result": Ok only after a graceful end, an error after a failure
       ff (monC04 c) ls, ff (monC06 c) ls,
-      ff monC02c ls] ++ wfAll c ls))    -- a call whose message was handled to completion does not return an error
+      ff monC02c ls,                     -- a call whose message was handled to completion does not return an error
+      ff monC04p ls] ++ wfAll c ls))    -- a ping begun after an accepted stop returned never returns Ok
   | "C03" => some (firstSome ([ff (monC03 c) ls, ff (monC03q c) ls] ++ wfAll c ls))
   | "C04" => some (firstSome ([ff (monC04 c) ls, ff (monC04q c) ls,
       -- "halt and join resolve only after stopped has finished ... an error / None when the actor failed"
       ff (monC17 c) ls, ff (monC06 c) ls,
-      ff monC02c ls] ++ wfAll c ls))    -- "every message whose submission completed before ... (its call returns Ok)"
+      ff monC02c ls,                     -- "every message whose submission completed before ... (its call returns Ok)"
+      ff monC04p ls] ++ wfAll c ls))    -- "no message submitted after an accepted stop request returned is ever handled": pings
   | "C05" => some (firstSome ([ff (monC05 c) ls, ff (monC05q c) ls,
       ff (monC05d c) ls,          -- dropped calls are drained too
       ff (monC03 c) ls] ++ wfAll c ls))   -- "terminates gracefully exactly as after stop"
